@@ -231,7 +231,11 @@ class KindAnalysis:
                     elif c is not None:
                         name = c.get("name") or ""
                         sp = strip_generics((c.get("resolved") or c)["path"])
-                        if t["args"] and sp in self.spec.conversions:
+                        if name == "from_elem" and len(t["args"]) >= 2:
+                            # vec![v; n]: a table with one slot per id of n's side
+                            if not {x for x in op_kind(t["args"][0]) if x in SIDE}:
+                                ks = {x for x in op_kind(t["args"][1]) if x in SIDE}
+                        elif t["args"] and sp in self.spec.conversions:
                             ks = {x for x in op_kind(t["args"][0]) if x in SIDE}
                         elif t["args"] and name == "enumerate" and not dest["p"]:
                             ik = self.source_index_kind(fa, t["args"][0])
